@@ -1,13 +1,18 @@
 """C12 — every SQW file written is a structurally complete, self-consistent container.
 
 Spec: spec/sqw/SqwBuilder.tla (state machine of the builder: the five public calls in any order and
-subset, then Create = WriteHeader, SerializeBlocks, WriteBAT, WriteBlock(i), PixChunk), with the
+subset, then Create = WriteHeader, SerializeBlocks, WriteBAT, WriteBlock(i), PixChunk; the target may
+hold an earlier file of any length and create() may be called again on the same builder), with the
 state-free layout definitions in SqwBuilderDefs.tla; Trace_SqwBuilder.tla judges recorded files.
 
 1. TLC, exhaustive over all orders and subsets of the calls x pixel counts x chunk sizes x histogram
-   shapes x byte order: HeaderFirst, Sequential, BlockAtDeclaredPosition, Tiling, EachBlockOnce,
-   CanonicalOrder, PixBytes, KindsAndSizes, ByteOrderReopened.  Three negative controls must be
-   rejected: chunk loop bounded by the row count, table in call order, positions not patched.
+   shapes x byte order (and, in a second configuration, x what the target held before x one or two
+   create() calls): HeaderFirst, Sequential, BlockAtDeclaredPosition, Tiling, NothingSurvives,
+   EachBlockOnce, CanonicalOrder, PixBytes, KindsAndSizes, ByteOrderReopened.  Five negative
+   controls must be rejected: chunk loop bounded by the row count, table in call order, positions
+   not patched, target not truncated, pixel data let go of after the first create().  (Quick tier:
+   the main configuration writes big-endian and the second one little-endian files; thorough: both
+   in both.)
 2. spec -> code (M1/M3): every complete behaviour of the model is exported by TLC (call order +
    abstract arguments + the block count / pixel / histogram sizes the model computed); the driver
    performs a stratified sample of them (all of them for small models) on the real SqwBuilder with a
@@ -19,6 +24,12 @@ state-free layout definitions in SqwBuilderDefs.tla; Trace_SqwBuilder.tla judges
    order).  One NDJSON event per file (integers / strings only: header, table entries, extents,
    consumed length and decoded type per block, file length, what Sqw.open reports, run-length
    encoded write log); TLC replays the calls on the spec's operators and evaluates every clause.
+   The configurations also vary HOW things are handed over without changing what is supplied (pixel
+   table as a slice / strided view of a larger array, float32 / int32 rows, integer- or float-typed
+   bin counts, byte order as enum member, other dimension name, titles of 2^16 characters) and what
+   the target path held before (a shorter / longer unrelated file, the builder's own first output).
+4. History: a sample of the configurations already judged is performed again at the end, in reversed
+   order and onto the same paths, and judged by the same clauses.
 """
 
 from __future__ import annotations
@@ -42,8 +53,8 @@ RULE = ('configuration = (ordered subset of the 5 builder calls, pixel count, ch
 LOG_CLAUSES = ('log_no_unwritten_holes', 'log_pix_extent_fully_written')
 
 
-def _one_file(ctx, cfg, tid, gid, events, cfgs):
-    b = L.build_file(cfg, ctx.tmp, f'c{tid}')
+def _one_file(ctx, cfg, tid, gid, events, cfgs, tag=None):
+    b = L.build_file(cfg, ctx.tmp, tag or f'c{tid}')
     if b.error is not None:
         ctx.violation(f'SqwBuilder raised {type(b.error).__name__} for an admissible configuration '
                       f'[{L.input_class(cfg)}]', {'cfg': _brief(cfg), 'exc': repr(b.error)})
@@ -64,7 +75,8 @@ def _one_file(ctx, cfg, tid, gid, events, cfgs):
 
 
 def _brief(cfg):
-    return {k: cfg[k] for k in ('calls', 'npix', 'nruns', 'chunk', 'bo', 'where', 'n_dims')} | {
+    return {k: cfg.get(k) for k in ('calls', 'npix', 'nruns', 'chunk', 'bo', 'where', 'n_dims', 'prev', 'twice',
+                                    'pix_view', 'pix_dim', 'bo_enum')} | {
         'title_len': len(cfg['title']), 'fname_len': len(cfg['fname']), 'subdirs': [len(s) for s in cfg['subdirs']],
         'dnd_shape': cfg['dnd']['shape'], 'pix_recipe': cfg['pix']}
 
@@ -81,7 +93,7 @@ def _synthetic_event():
         dec.append({'ok': True, 'consumed': size, 'sn': sn, 'nrows': -1, 'npix': -1, 'shape': [], 'err': ''})
         pos += size
     return {'tid': 0, 'gid': 1, 'calls': ['inst', 'det'], 'npix': 0, 'shape': [], 'chunk': 8192, 'bo': 'little',
-            'where': 'bytesio', 'out': 'ok', 'flen': pos, 'hdrok': True, 'dec_bo': 'little',
+            'where': 'bytesio', 'out': 'ok', 'flen': pos, 'prev': 0, 'gen': 1, 'hdrok': True, 'dec_bo': 'little',
             'hdr': {'name': 'horace', 'v4': True, 'type': 1, 'ndims': 0, 'len': 26}, 'batok': True,
             'batsize': batlen - 4, 'batbegin': 26, 'batend': 26 + batlen, 'bat': bat, 'dec': dec,
             'open': {'out': 'ok', 'bo': 'little', 'name': 'horace', 'v4': True, 'type': 1, 'ndims': 0,
@@ -92,7 +104,7 @@ def _synthetic_event():
 def _corruption_control(ctx):
     """The trace specification must accept a hand-made consistent layout and reject it when the file
     length is off by one byte, resp. when the table lists the blocks in another order than its sibling of
-    the same configuration."""
+    the same configuration, resp. when bytes of an earlier file follow the last extent."""
     import copy
 
     g = _synthetic_event()
@@ -102,7 +114,11 @@ def _corruption_control(ctx):
     b['bat'][1], b['bat'][2] = b['bat'][2], b['bat'][1]
     b['dec'][1], b['dec'][2] = b['dec'][2], b['dec'][1]
     b['open']['names'][1], b['open']['names'][2] = b['open']['names'][2], b['open']['names'][1]
-    seq = [g, a, copy.deepcopy(g), b]
+    c = copy.deepcopy(g)
+    c.update(prev=5000, flen=5000, gid=2, where='file_str', haslog=False, log=[])
+    d = copy.deepcopy(g)
+    d.update(prev=5000, gen=2, gid=3, where='file_str', haslog=False, log=[])   # overwritten properly: accepted
+    seq = [g, a, copy.deepcopy(g), b, c, d]
     for i, e in enumerate(seq):
         e['tid'] = i
     tf = ctx.tmp / 'c12-corrupt.ndjson'
@@ -110,10 +126,12 @@ def _corruption_control(ctx):
     tr = ctx.tlc('sqw/Trace_SqwBuilder.tla', workers=1, env={'TRACE_FILE': str(tf)}, timeout=300, count=False)
     require_ok(ctx, tr, 'Trace_SqwBuilder (corruption control)')
     rej = {r[1]: r[3] for r in tr.tagged('REJECT')}
-    if set(rej) != {2, 4} or 'extents_end_at_eof' not in rej[2] \
-            or rej[4] != ['table_order_independent_of_call_order']:
+    if set(rej) != {2, 4, 5} or 'extents_end_at_eof' not in rej[2] \
+            or rej[4] != ['table_order_independent_of_call_order'] \
+            or rej[5] != ['extents_end_at_eof', 'nothing_survives_of_an_earlier_file']:
         raise MachineryError(f'corruption control: the trace specification judged {rej}')
-    ctx.extra['corruption_control'] = 'hand-made layout accepted; file length +1 and permuted table rejected'
+    ctx.extra['corruption_control'] = ('hand-made layout accepted (also as second file at a path); file length +1, '
+                                       'permuted table and surviving tail of an earlier file rejected')
 
 
 def run(ctx):
@@ -135,21 +153,30 @@ def run(ctx):
     behs = res.tagged('BEH')
     if len(behs) < 1000:
         raise MachineryError(f'only {len(behs)} behaviours exported by TLC')
-    for neg in ('rows', 'callorder', 'nopatch'):
+    # the same machine with something at the target before create() and with create() called twice
+    cfgname = 'MC_SqwBuilder_reuse_thorough.cfg' if ctx.thorough else 'MC_SqwBuilder_reuse.cfg'
+    res2 = ctx.tlc('sqw/MC_SqwBuilder.tla', cfgname, timeout=1500, workers=WORKERS, coverage=True)
+    require_ok(ctx, res2, 'SqwBuilder model (existing target, create() twice)')
+    require_actions(res2, ['Create', 'CreateAgain', 'WriteHeader', 'WriteBAT', 'PixChunk', 'PixDone'])
+    behs2 = res2.tagged('BEH')
+    if len(behs2) < 300 or not any(b[10] > 0 for b in behs2) or not any(b[11] == 2 for b in behs2):
+        raise MachineryError(f'only {len(behs2)} behaviours with an existing target / a second create() exported')
+    for neg in ('rows', 'callorder', 'nopatch', 'notrunc', 'release'):
         ctx.tlc('sqw/MC_SqwBuilder.tla', f'Neg_SqwBuilder_{neg}.cfg', expect_error=True, timeout=300, workers=WORKERS)
-    ctx.extra['behaviours_exported'] = len(behs)
+    ctx.extra['behaviours_exported'] = len(behs) + len(behs2)
 
     events, cfgs = [], {}
     tid = 0
     gid = 0
+    L.hostile_first_build(ctx.tmp)      # unjudged first use of the library (single precision, views, big-endian)
 
     # ---- 2. spec -> code: perform TLC's behaviours ------------------------------------------------
     groups = {}
-    for _, order, npix, shape, chunk, bo, nblocks, pixsize, dndsize, nchunks in behs:
+    for _, order, npix, shape, chunk, bo, nblocks, pixsize, dndsize, nchunks, _prev, _gen in behs:
         key = (frozenset(order), npix, tuple(shape), chunk, bo)
         groups.setdefault(key, []).append((tuple(order), nblocks, pixsize, dndsize, nchunks))
     keys = sorted(groups, key=lambda k: (sorted(k[0]), k[1:]))
-    budget = 12000 if ctx.thorough else 900
+    budget = 12000 if ctx.thorough else 750
     # stratified: every call SET with every (npix, chunk) at least once; then random fill
     chosen = []
     seen_strata = set()
@@ -191,7 +218,37 @@ def run(ctx):
                 ctx.violation('block count / computed pixel and histogram block sizes differ from the model '
                               f'[{L.input_class(cfg)}]',
                               {'cfg': _brief(cfg), 'model': want, 'file': (len(dec.entries), got_pix, got_dnd)})
-    ctx.extra['behaviours_replayed'] = replayed
+    # behaviours whose target holds an earlier file (shorter / longer) and / or whose builder creates twice:
+    # real files; the model's `prev` is the number of bytes put at the path beforehand
+    groups2 = {}
+    for _, order, npix, shape, chunk, bo, nblocks, pixsize, dndsize, _nchunks, prev, gen in behs2:
+        if prev == 0 and gen == 1:
+            continue                                     # that is the plain machine again
+        groups2.setdefault((prev, gen, len(order), 'pix' in order), []).append(
+            (tuple(order), npix, tuple(shape), chunk, bo, nblocks, pixsize, dndsize))
+    per = 60 if ctx.thorough else 4
+    replayed2 = 0
+    for (prev, gen, _, _), lst in sorted(groups2.items()):
+        rng.shuffle(lst)
+        for order, npix, shape, chunk, bo, nblocks, pixsize, dndsize in lst[:per]:
+            cfg = L.config_from_behaviour(rng, order, npix, shape or (1, 1, 1, 1), chunk, bo,
+                                          where=rng.choice(['file_str', 'file_path']), prev=prev, twice=gen == 2)
+            gid += 1
+            r = _one_file(ctx, cfg, tid, gid, events, cfgs)
+            tid += 1
+            replayed2 += 1
+            if r is None:
+                continue
+            ev, dec = r
+            got_pix = [e.size for e in dec.entries if e.block_type == 'pix_data_block']
+            got_dnd = [e.size for e in dec.entries if e.block_type == 'dnd_data_block']
+            want = (nblocks, [pixsize] if pixsize >= 0 else [], [dndsize] if dndsize >= 0 else [])
+            if (len(dec.entries), got_pix, got_dnd) != want:
+                ctx.violation('block count / computed pixel and histogram block sizes differ from the model '
+                              f'[{L.input_class(cfg)}] [existing target / second create()]',
+                              {'cfg': _brief(cfg), 'model': want, 'file': (len(dec.entries), got_pix, got_dnd)})
+    ctx.extra['behaviours_replayed'] = replayed + replayed2
+    ctx.extra['behaviours_replayed_existing_target_or_second_create'] = replayed2
     ctx.extra['behaviour_groups'] = gid
 
     # ---- 3. code -> spec: random configurations ---------------------------------------------------
@@ -209,6 +266,10 @@ def run(ctx):
         for calls in perms:
             _one_file(ctx, dict(cfg, calls=calls), tid, gid, events, cfgs)
             tid += 1
+    for npix, chunk, where in ((100_000, 30_000, 'file_str'), (65_537, None, 'bytesio'), (65_536, 65_536, 'file_path')):
+        gid += 1                       # the upper end of the pixel range in every run, not only by chance
+        _one_file(ctx, L.large_config(rng, npix, chunk, where), tid, gid, events, cfgs)
+        tid += 1
     if ctx.thorough:
         # the extreme corner of the quantifier: 1e5 pixels written one at a time
         cfg = L.random_config(rng, thorough=True, small=True, force=['pix'])
@@ -217,6 +278,21 @@ def run(ctx):
         gid += 1
         _one_file(ctx, cfg, tid, gid, events, cfgs)
         tid += 1
+
+    # ---- 3b. history: a sample of the configurations above once more, last first, onto the same paths ----
+    first_of_gid = {}
+    for e in events:
+        first_of_gid.setdefault(e['gid'], []).append(e['tid'])
+    again = rng.sample(sorted(first_of_gid), min(len(first_of_gid), 400 if ctx.thorough else 45))
+    n_again = 0
+    for g in sorted(again, reverse=True):
+        gid += 1
+        for t in reversed(first_of_gid[g]):
+            # same tag => same path as the first time
+            r = _one_file(ctx, cfgs[t], tid, gid, events, cfgs, tag=f'c{t}')
+            tid += 1
+            n_again += r is not None
+    ctx.extra['files_written_again_in_reversed_order'] = n_again
 
     for e in events[:1] + events[-1:]:
         ctx.sample({k: e[k] for k in ('calls', 'npix', 'shape', 'chunk', 'bo', 'where', 'flen', 'bat')})
@@ -247,17 +323,21 @@ def run(ctx):
 META = {
     'design_ref': 'DESIGN.md §5 C12',
     'technique': 'TLA+ state machine of the SQW builder (all call orders/subsets x pixel counts x chunk sizes x '
-                 'byte order) model-checked by TLC with three negative controls; TLC-exported behaviours and '
+                 'byte order; target holding an earlier file; create() twice) model-checked by TLC with five '
+                 'negative controls; TLC-exported behaviours and '
                  'random configurations are performed on the real builder with a recording file object, the '
                  'bytes are decoded by an independent decoder and every file is judged by a TLC trace '
                  'specification that replays the calls on the specification\'s layout operators',
     'text': 'TLC proves on the model (all orders and subsets of the five builder calls, pixel counts and chunk '
             'sizes around the row count 9, three histogram shapes, both byte orders) that the header comes first, '
             'the table lists each block once in a call-order independent order, extents start after the table, '
-            'tile the file and end at EOF, pixel bytes equal the declared size and the byte order is re-deduced; '
+            'tile the file and end at EOF (also when the path held a longer file before and when create() is '
+            'called a second time), pixel bytes equal the declared size and the byte order is re-deduced; '
             'the same behaviours and seeded random configurations up to 1e5 pixels (BytesIO and real files, '
-            'native/little/big, any title length) are executed on the real SqwBuilder and each produced file, '
-            'decoded independently of the package, is judged clause by clause by TLC.',
+            'native/little/big, any title length, pixel tables handed over as views / in other dtypes, paths that '
+            'already hold a file) are executed on the real SqwBuilder and each produced file, decoded '
+            'independently of the package, is judged clause by clause by TLC; a sample is written again in '
+            'reversed order at the end.',
     'note': 'Trusted: TLC, the independent decoder (written from docs/developer/file-formats/sqw.md and the header '
             'fixtures), numpy. The table order is judged only for independence of call order. The write log is '
             'available for in-memory targets only.',
